@@ -148,6 +148,18 @@ CLAIMED['C02'] = dict(
   note='Known finding (Type 1 and Type 2): marker byte FFh and the 16-bit length share one flush; the pinned suite asserts the command '
        'transcripts, so it is recorded, not repaired. Trusted: flush order = ascending units, cut falls between commands.',
   technique='write-phase typestate by CFG reachability (ast)')
+CLAIMED['C03'] = dict(
+  category='other',
+  text='Decides, per store site, that the Type 1/2 NDEF writers and the Type 2 format routine write the memory image only at the TLV\'s own '
+       'length field (with the offset reloaded from the reader\'s TLV offset) or at positions for which `not in skip_bytes` is established on '
+       'every path to the store (and, for the terminator, below the end of the data area); that the reader feeds lock/memory control TLV ranges '
+       'and the static reserved bytes into that skip set; that vendor format routines store only to constant ranges inside the product\'s '
+       'NDEF area with matching value lengths; that the write-back writes only changed units; and that the Type 3/4 writers and the Type 4 wipe '
+       'address only blocks/offsets inside the NDEF file. That the value bytes stay below the data-area end for every layout is a value-level '
+       'consequence of the capacity computation and is not decided.',
+  design_ref='DESIGN.md section 3 C03',
+  note='Trusted: product memory maps tabulated in the rule (Topaz, Topaz-512, NTAG), control TLV semantics.',
+  technique='per-store guard dominance on the CFG + constant range containment (ast)')
 NA_REASON = {}
 def main():
     checks = []
